@@ -194,7 +194,9 @@ def run_fault(cfg, Wd, A, mk, assume, cap):
         r0 = c04.residuals(A, cfg, dn0, sol0)
         inv += [A.eq(rx0[j], r0['rx'][j]) for j in range(n)] + [A.eq(ry0[i], r0['ry'][i]) for i in range(p)]
         inv += [A.eq(rznl0[i], r0['rznl'][i]) for i in range(mnl)] + [A.eq(rzl0[i], r0['rzl'][i]) for i in r0['rzl']]
-        assume(A.implies(A.ge(num(ri), A.const(1)), A.and_(*inv)))
+        # (decided by the explorer - a fork - so that each conjunct is a top-level hypothesis the solver can substitute)
+        if ri >= 1:
+            for g in inv: assume(g)
         cap['saved'] = {'x': x0, 'y': y0, 's': s0, 'z': z0, 'lmbda': lm0, 'W': W0t, 'ri': num(ri)}
         return havoc_result(loc, names, vals)
     def vp_ret(val, loc):
@@ -214,8 +216,13 @@ def run_fault(cfg, Wd, A, mk, assume, cap):
         raise Cut('KKT factorisation succeeded at the retry')
     misc = Wd.misc
     saved = misc.compute_scaling
-    def _cs(*a, **k): raise Cut('compute_scaling (iteration 0 continues; fault site not reached)')
-    if cfg['kclass'] != 'k0': misc.compute_scaling = _cs
+    def _cs(s_, z_, lmbda, dims_, mnl_=None):
+        # iteration 0: the scaling is computed here; its correctness is C07's business - arbitrary scaling, positive lmbda
+        if cfg['kclass'] != 'k0': raise Cut('compute_scaling reached at an iteration k >= 1')
+        for i in range(len(lmbda)):
+            v = mk('lm%d' % i); assume(A.gt(num(v), A.const(0))); lmbda[i] = v
+        return W_to_matrices(Wd, dims, mnl, fresh_W(dims, mnl, mk, 'Wc'))
+    misc.compute_scaling = _cs
     try:
         sol = mod.cpl(c, Fstub, G, h, dims, Am, b, kktsolver=kkt, options=opts)
     finally:
@@ -324,6 +331,7 @@ def job(cfg):
     def decide(claims_, pc, A):
         for (prop, label, goal) in claims_:
             if have(label): continue
+            if state.setdefault('undecided', {}).get(label, 0) >= 2: continue      # reported once as inconclusive; no further searches
             r = prove.prove(goal, pc, A.side, min(tmo, 5000), fallback=False, full_query=False)
             if r['verdict'] == 'unsat':
                 count('unsat', r['secs']); continue
@@ -332,6 +340,7 @@ def job(cfg):
                 count('sat', dt); res['sat'].append({'label': label, 'prop': prop, 'model': sym.model_to_dict(m)})
             elif v == 'unsat': count('unsat', dt)
             else:
+                state['undecided'][label] = state['undecided'].get(label, 0) + 1
                 count('unknown', dt); res['unknown'].append(label)
     def on_path(kind, val, ctx):
         res['paths'] += 1
